@@ -176,7 +176,7 @@ class RawSession:
                                                  cfg.priv_code(), cfg.pkm, 0, 0, 0, 0)
             if cfg.engine:
                 self.engines.add(cfg.engine)
-        e = dict(ev="Open", sid=sid, maxbuf=maxbuf)
+        e = dict(ev="Open", sid=sid, maxbuf=maxbuf, apiuser=text(cfg.user), apiauth=cfg.auth, apipriv=cfg.priv)
         e.update(cfg.ev())
         rec.emit(e)
         self.iter = None
